@@ -172,6 +172,7 @@ func (env *Env) lookup(name string) (Val, bool) {
 	}
 	for _, g := range fx.e.CS.Ghosts {
 		if g.Name == name {
+			fx.ghostUsed = true
 			return Val{T: withSign(fx.comp(env.st, "G:"+name, g.Sort), true)}, true
 		}
 	}
